@@ -108,6 +108,13 @@ def build(case):
     elif keystyle == 'invisible':
         targets = agg_txt; group = 'GROUP BY ' + ', '.join(keys)
         rows = [tuple(a) + ((3 * len_(table, keys, where, k),) if arith else ()) for k, a in exp]
+    elif keystyle == 'dup-first':
+        # the first key referenced twice, by position and by name, before the second key
+        targets = keys + agg_txt; group = 'GROUP BY 1, ' + ', '.join(keys)
+        rows = [tuple(k) + tuple(a) + ((3 * len_(table, keys, where, k),) if arith else ()) for k, a in exp]
+    elif keystyle == 'dup-name':
+        targets = keys + agg_txt; group = 'GROUP BY ' + ', '.join([keys[0]] + keys)
+        rows = [tuple(k) + tuple(a) + ((3 * len_(table, keys, where, k),) if arith else ()) for k, a in exp]
     elif keystyle == 'after-aggs':
         targets = agg_txt + keys; group = 'GROUP BY ' + ', '.join(keys) if keys else ''
         rows = [tuple(a) + ((3 * len_(table, keys, where, k),) if arith else ()) + tuple(k) for k, a in exp]
@@ -155,6 +162,10 @@ def cases(tier, seed):
                 for a in aggpool:
                     out.append((table, keys, style, [a], None, None, False))
                 out.append((table, keys, style, [('sum', 'i'), ('count*', None), ('max', 'd')], None, None, True))
+    # repeated group references (the same target by position and by name): keys are de-duplicated, later key cells keep their own value
+    for table in TABLES:
+        out.append((table, ['k', 'g'], 'dup-first', [('sum', 'i'), ('count*', None)], None, None, False))
+        out.append((table, ['k', 'g'], 'dup-name', [('sum', 'i')], None, None, False))
     # wide statements: nine and more targets, so that group keys sit at target positions 8 and above (after the aggregates, or
     # invisible after them) while others sit in front
     wide = [('count*', None), ('sum', 'i'), ('sum', 'd'), ('min', 'i'), ('max', 'd'), ('first', 's'), ('last', 't'), ('count', 's'), ('max', 's')]
@@ -177,6 +188,104 @@ def cases(tier, seed):
             having = None
         out.append((rng.choice(list(TABLES)), keys, style, aggs, rng.choice(wheres + [None]), having, rng.random() < 0.3))
     return out
+
+
+def _same(a, b):
+    """equality that never raises (value classes of the libraries compare attribute-wise and may choke on foreign types)"""
+    try:
+        return type(a) is type(b) and bool(a == b) if not isinstance(a, (list, tuple)) else (len(a) == len(b) and all(_same(x, y) for x, y in zip(a, b)))
+    except Exception:  # noqa
+        return False
+
+
+def ledger_groups(res):
+    """aggregation over a ledger: keys that are tuple-like values (amounts, positions), sums of amounts that cancel, one inventory
+    column summed by several aggregate nodes - each against a fold written with the Beancount inventory"""
+    from harness import ledger
+    from beancount.core import data, inventory, convert
+    entries, _, _ = ledger.load(ledger.LEDGER_A)
+    conn = ledger.connect(ledger.LEDGER_A)
+    posts = [(e, p) for e in entries if isinstance(e, data.Transaction) for p in e.postings]
+    # (a) one grouping key whose values are amounts: one row per distinct amount, first-appearance order, the key cell is the amount
+    for keyexpr, keyfn in (('units(position)', lambda p: p.units), ('cost(position)', lambda p: convert.get_cost(p))):
+        for style in (f'SELECT {keyexpr} AS u, count(*) FROM #postings GROUP BY u', f'SELECT {keyexpr}, count(*) FROM #postings GROUP BY 1', f'SELECT {keyexpr}, count(*) FROM #postings'):
+            res.case(('ledger-key', style))
+            want, order = {}, []
+            for e, p in posts:
+                k = keyfn(p)
+                if k not in want:
+                    want[k] = 0
+                    order.append(k)
+                want[k] += 1
+            try:
+                got = [tuple(r) for r in conn.execute(style).fetchall()]
+            except Exception as ex:  # noqa
+                got = f'{type(ex).__name__}: {ex}'
+            exp = [(k, want[k]) for k in order]
+            if not (isinstance(got, list) and _same(got, exp)):
+                res.violation('h02:ledger-key:' + style[:60], 'one row per distinct key value in order of first appearance; the key cell is the key value itself', {'query': style},
+                              got[:3] if isinstance(got, list) else got, exp[:3])
+    # (b) sums of amounts per account against the inventory fold (amounts that cancel leave nothing behind)
+    for expr, fn in (('units(position)', lambda p: p.units), ('cost(position)', lambda p: convert.get_cost(p))):
+        q = f'SELECT account, sum({expr}), count(*) FROM #postings GROUP BY account'
+        res.case(('ledger-sum-amount', q))
+        want, order = {}, []
+        for e, p in posts:
+            if p.account not in want:
+                want[p.account] = [inventory.Inventory(), 0]
+                order.append(p.account)
+            want[p.account][0].add_amount(fn(p))
+            want[p.account][1] += 1
+        got = [tuple(r) for r in conn.execute(q).fetchall()]
+        exp = [(a, want[a][0], want[a][1]) for a in order]
+        if got != exp:
+            bad = next(((g, x) for g, x in zip(got, exp) if g != x), (len(got), len(exp)))
+            res.violation('h02:ledger-sum-amount:' + expr, 'sum over a group equals the fold of the group values (amounts that add up to zero leave an empty inventory)', {'query': q}, bad[0], bad[1])
+    # per transaction: the units of a single-currency transaction cancel, the sum is the empty inventory
+    q = 'SELECT id, sum(units(position)), count(*) FROM #postings GROUP BY id'
+    res.case(('ledger-sum-amount', q))
+    want, order = {}, []
+    from beancount.core.compare import hash_entry
+    for e, p in posts:
+        k = hash_entry(e)
+        if k not in want:
+            want[k] = [inventory.Inventory(), 0]
+            order.append(k)
+        want[k][0].add_amount(p.units)
+        want[k][1] += 1
+    got = [tuple(r) for r in conn.execute(q).fetchall()]
+    exp = [(k, want[k][0], want[k][1]) for k in order]
+    if got != exp:
+        bad = next(((g, x) for g, x in zip(got, exp) if g != x), (len(got), len(exp)))
+        res.violation('h02:ledger-sum-amount:per-transaction', 'sum over a group equals the fold of the group values (amounts that add up to zero leave an empty inventory)', {'query': q}, bad[0], bad[1])
+    whole = inventory.Inventory()
+    for e, p in posts:
+        whole.add_amount(p.units)
+    for q in ['SELECT sum(units(position)), sum(units(position)) FROM #postings', "SELECT sum(units(position)) FROM #postings WHERE currency = 'USD'"]:
+        res.case(('ledger-sum-amount', q))
+        got = conn.execute(q).fetchall()
+        exp = whole if 'WHERE' not in q else inventory.Inventory([pos for pos in whole if pos.units.currency == 'USD'])
+        if not got or any(v != exp for v in got[0]):
+            res.violation('h02:ledger-sum-amount-total:' + q[:50], 'sum over the selection equals the fold of the values', {'query': q}, got, exp)
+    # (c) one inventory column of a subquery consumed by several aggregate nodes of one statement
+    total = inventory.Inventory()
+    for e, p in posts:
+        total.add_position(p)
+    for q in ['SELECT sum(t) AS a, sum(t) AS b FROM (SELECT account, sum(position) AS t FROM #postings GROUP BY account)',
+              'SELECT sum(t), first(t), count(t) FROM (SELECT account, sum(position) AS t FROM #postings GROUP BY account)',
+              'SELECT sum(t), units(sum(t)), cost(sum(t)) FROM (SELECT account, sum(position) AS t FROM #postings GROUP BY account)']:
+        res.case(('ledger-sum-inventory', q))
+        got = conn.execute(q).fetchall()
+        firstacct = inventory.Inventory()
+        for e, p in posts:
+            if p.account == posts[0][1].account:
+                firstacct.add_position(p)
+        twice = inventory.Inventory()
+        twice.add_inventory(total)
+        twice.add_inventory(total)
+        ok = bool(got) and got[0][0] == total and ('first' not in q or got[0][1] == firstacct) and (' AS b' not in q or got[0][1] == total) and ('units(' not in q or (got[0][1] == total.reduce(convert.get_units) and got[0][2] == total.reduce(convert.get_cost)))
+        if not ok:
+            res.violation('h02:ledger-sum-inventory:' + q[:60], 'every aggregate folds the group on its own: a second consumer of the same column changes nothing', {'query': q}, got, total)
 
 
 def additivity(res):
@@ -210,6 +319,7 @@ def run(tier, seed):
         if bad:
             clause, cse, obs, exp = bad
             res.violation('h02:' + clause + ':' + str(cse.get('query', ''))[:90], clause, cse, obs, exp)
+    ledger_groups(res)
     additivity(res)
     return res.asdict()
 
